@@ -21,11 +21,21 @@ def complete_schedule(prefix):
     was not, the consumer is stepped until it must have finished, stop() joins."""
     s = [dict(x) for x in prefix]
     acts = [x["a"] for x in s]
+    inpush = set()
+    for x in s:
+        if x["a"] == "R":
+            inpush.add(x["p"])
+        elif x["a"] == "P":
+            inpush.discard(x["p"])
     if "J" in acts:
-        return s
+        return s + [{"a": "P", "p": p, "en": 0} for p in sorted(inpush)]
     if "X" not in acts:
         s.append({"a": "X", "p": 0, "en": 0})
-    nen = sum(1 for x in s if x["a"] == "S" and x["en"])
+    nen = sum(1 for x in s if x["a"] in ("S", "R") and x["en"])
+    if inpush:
+        # the consumer polls while a producer still sits inside its push, then the producer finishes
+        s += [{"a": "C", "p": 0, "en": 0}] * 2
+        s += [{"a": "P", "p": p, "en": 0} for p in sorted(inpush)]
     s += [{"a": "C", "p": 0, "en": 0}] * (nen + 2)
     s.append({"a": "J", "p": 0, "en": 0})
     return s
@@ -34,7 +44,12 @@ def complete_schedule(prefix):
 def sched_cmd(i, np_, sched):
     toks = []
     for x in sched:
-        toks.append("S%d%s" % (x["p"], "e" if x["en"] else "d") if x["a"] == "S" else x["a"])
+        if x["a"] in ("S", "R"):
+            toks.append("%s%d%s" % (x["a"], x["p"], "e" if x["en"] else "d"))
+        elif x["a"] == "P":
+            toks.append("P%d" % x["p"])
+        else:
+            toks.append(x["a"])
     return "sched %d %d %s" % (i, np_, " ".join(toks))
 
 
